@@ -40,6 +40,22 @@ def strip_stores(t):
     return None
 
 
+def _owner_index(t):
+    """index applied directly to the base array constant of a select chain: the address of the
+    object / container whose cell is read"""
+    owner = None
+    while z3.is_app(t) and t.num_args() > 0:
+        k = t.decl().kind()
+        if k == z3.Z3_OP_SELECT:
+            owner = t.arg(1)
+            t = t.arg(0)
+        elif k in (z3.Z3_OP_DT_ACCESSOR, z3.Z3_OP_STORE):
+            t = t.arg(0)
+        else:
+            return None
+    return owner
+
+
 def base_const(t):
     while z3.is_app(t) and t.num_args() > 0:
         k = t.decl().kind()
@@ -95,8 +111,15 @@ class HeapMixin:
             c = base_const(b)
             bound = p.bounds.get(str(c)) if c is not None else None
             if bound is not None:
-                facts.append(b < bound)
-                facts.append(b >= 1)
+                # "every reference stored in this (initial / havocked) array is below the frontier
+                # that was current when the array came into being" - true of the cells of objects
+                # that existed then; a cell of an object allocated LATER (by a callee: address at
+                # or above that frontier) holds whatever the allocator stored
+                owner = _owner_index(b)
+                fact = z3.And(b < bound, b >= 1)
+                if owner is not None and owner.sort() == z3.IntSort():
+                    fact = z3.Implies(owner < bound, fact)
+                facts.append(fact)
         f = z3.And(*facts)
         p.assume(f if z3.is_true(guard) else z3.Implies(guard, f))
 
@@ -119,7 +142,15 @@ class HeapMixin:
         if kind is None:
             raise Unsupported(f'no schema for {obj.kind.name}.{attr}')
         arr = self.field_arr(attr, kind)
-        return self.wf_value(SV(kind, z3.Select(arr, obj.t)))
+        v = self.wf_value(SV(kind, z3.Select(arr, obj.t)))
+        inv = self.reg.field_invariant(obj.kind.name, attr)
+        if inv is not None and not getattr(self, '_in_field_inv', False):
+            self._in_field_inv = True
+            try:
+                self.p.assume(self.eval_clause(inv[1], env={'v': v}, contract=inv[2], polarity=-1))
+            finally:
+                self._in_field_inv = False
+        return v
 
     def write_field(self, obj: SV, attr, val: SV):
         kind = self.field_kind(obj.kind.name, attr)
@@ -133,6 +164,9 @@ class HeapMixin:
     # ------------------------------------------------------------ coercion
     def coerce(self, v: SV, kind: Kind):
         """z3 term of sort_of(kind) representing v, or Unsupported."""
+        if v.kind.is_ref and v.t is not None:
+            # a reference that is stored / passed somewhere may be reached by later callees
+            self.p.escaped.add(str(v.t))
         if v.kind == kind:
             return v.t
         if v.kind.name == 'opt' and kind.name != 'opt' and kind != ANY:
@@ -188,6 +222,10 @@ class HeapMixin:
         r = self.p.alloc()
         key = '@dtype'
         self.p.heap[key] = z3.Store(self.dtype_arr(), r, self.kind_tag(kind))
+        if not kind.is_obj:
+            # a container allocated by the function under verification: until its reference is
+            # stored or passed on (coerce) no callee can reach it
+            self.p.local_fresh[str(r)] = r
         return SV(kind, r)
 
     # ------------------------------------------------------------ lists
